@@ -3,11 +3,10 @@
 # Prints "REPOHASH <sha256>" for the contract sources that were compiled in.
 set -eu
 HERE="$(cd "$(dirname "$0")" && pwd)"
-CACHE=/verif/.cache
+CACHE="$(dirname "$HERE")/.cache"
 export CARGO_TARGET_DIR="$CACHE/target"
 export CARGO_NET_OFFLINE=true
 mkdir -p "$CACHE"
-[ -e /verif/.gitignore ] || printf '.cache/\n' > /verif/.gitignore
 
 # the lock file of the contract pins every dependency that is available offline
 cp /repo/Cargo.lock "$HERE/Cargo.lock"
